@@ -180,7 +180,7 @@ def random_abstract(rnd):
     for _ in range(rnd.randint(5, 18)):
         r = rnd.random()
         if mode == "trickle":
-            out.append({"op": "tick", "n": rnd.choice([1, 9, 11, 15, 16, 30, 3600])})
+            out.append({"op": "tick", "n": rnd.choice([1, 9, 11, 15, 16, 30, 3600, 86400, 86403, 172807, 2592001])})
             out.append({"op": rnd.choice(["insert", "insert", "replace", "delete"]), "n": 1})
             if r < 0.1:
                 out.append({"op": "read", "n": 0})
@@ -197,7 +197,7 @@ def random_abstract(rnd):
                 out.append({"op": "tick", "n": rnd.choice([1, 15, 30])})
         else:
             if r < 0.25:
-                out.append({"op": "tick", "n": rnd.choice([1, 9, 15, 30])})
+                out.append({"op": "tick", "n": rnd.choice([1, 9, 15, 30, 86403])})
             elif r < 0.5:
                 out.append({"op": "insert", "n": rnd.choice([1, 1, 2, 3, 30, 49, 50, 51, 70])})
             elif r < 0.65:
@@ -247,8 +247,18 @@ class Runner:
 
         conn_of(self.kind, self.ds).set_trace_callback(cb)
         ds = self.ds
+        nlog = [0]
+
+        def split_read(b_):
+            """a harness operation that reads before it writes is two library calls: the read is logged as an
+            operation of its own (it may flush), the statements that follow belong to the write"""
+            if log is not None:
+                log.append({"op": "get1", "b": b_, "writes": [], "raised": "none"})
+            nlog[0] += 1
+            cur[0] = nlog[0]
+
         for i, op in enumerate(ops):
-            cur[0] = i
+            cur[0] = nlog[0]
             o = op["op"]
             b = op.get("b")
             w = []
@@ -306,6 +316,7 @@ class Runner:
                 elif o == "replace_last":
                     # which event is the newest is read back from the store before (that read flushes, as in real use)
                     last = ds[b].get(1)
+                    split_read(b)
                     if last:
                         e, t = self.ev()
                         ds[b].replace_last(e)
@@ -336,6 +347,7 @@ class Runner:
                                 self.ids.pop(h)
                 elif o == "delete_newest":
                     last = ds[b].get(1)
+                    split_read(b)
                     if last:
                         ds[b].delete(last[0].id)
                         w = [{"k": "rem", "b": b, "t": last[0].data["t"]}]
@@ -381,6 +393,7 @@ class Runner:
                     lv.clear()
             if log is not None:
                 log.append(dict(op, writes=w, raised=raised))
+            nlog[0] += 1
 
 
 def _child(fn):
@@ -481,7 +494,7 @@ def record_history(kind, ops, root, rnd, nkills):
             if os.path.exists(p2 + suf):
                 os.remove(p2 + suf)
     obs.sort(key=lambda o: (o["k"], o["how"]))
-    obs.append({"k": len(stm), "op": len(ops), "how": "exit-without-shutdown", "st": final})
+    obs.append({"k": len(stm), "op": len(log), "how": "exit-without-shutdown", "st": final})
     # flatten writes
     flat, endidx, timeof, t = [], [], [], 0
     for rec in log:
